@@ -1050,6 +1050,38 @@ def rule_rekey(ctx, rule="R3", consequence=""):
                   f"renamed on that path stays stored under its old name{consequence}",
                   how="CFG: paths from the `_name` store to the exit that avoid the test guarding `<graph>.initializers[...] = self`",
                   construct="initializer re-keying skipped on a path of the name setter")
+        # … and nothing that can fail sits between the two: once the new name is stored, an exception before the table is
+        # re-keyed leaves the initializer under its old key (a foreign tensor's name setter may reject the name)
+        first_touch = [n for n in cfg.nodes if n.kind == "stmt" and any(isinstance(x, ast.Attribute) and x.attr == "initializers" for x in ast.walk(n.ast))
+                       and not isinstance(n.ast, (ast.If, ast.Assert))]
+        targets = {n.id for n in first_touch if sn.id != n.id and n.id in cfg.reachable_from(sn, exc=False)}
+        if targets and after:
+            between = [n for n in cfg.nodes if n.id != sn.id and n.id not in targets and n.id in cfg.reachable_from(sn, exc=False)
+                       and any(t in cfg.reachable_from(n, exc=False) for t in targets)
+                       and cfg.path_exists_avoiding(sn, {n.id}, targets, exc=False)]
+            me = setter.params[0]
+
+            def may_fail(node):
+                if node.kind != "stmt" or isinstance(node.ast, (ast.Assert, ast.Pass, ast.If, ast.For, ast.While, ast.With, ast.Try)):
+                    exprs = node.exprs() if node.kind == "test" else []
+                else:
+                    exprs = [node.ast]
+                for e in exprs:
+                    for x in ast.walk(e):
+                        if isinstance(x, ast.Call):
+                            return x
+                        if isinstance(x, (ast.Attribute, ast.Subscript)) and isinstance(x.ctx, (ast.Store, ast.Del)) and not (
+                                isinstance(x, ast.Attribute) and norm(x.value) == me):
+                            return x
+                return None
+
+            bad = next((b for b in (may_fail(n) for n in between) if b is not None), None)
+            ctx.check(rule, "Value.name setter: nothing that can fail lies between the store of the new name and the re-keying", bad is None, setter,
+                      bad if bad is not None else st,
+                      f"`{norm(bad)[:60] if bad is not None else ''}` runs after `self._name = value` and before the initializer table is re-keyed: if it raises (a tensor "
+                      f"whose name setter rejects the name), the value already carries the new name while the graph still stores it under the old key{consequence}",
+                      how="statements on the paths from the `_name` store to the first statement touching `<graph>.initializers`: no call, no store through another object",
+                      construct="fallible statement between the name store and the re-keying")
 
 
 def rule_r8(ctx):
